@@ -429,7 +429,7 @@ func runPoolCase(c *checkCtx, cs poolCase) (res poolResult) {
 				arrived := func() bool {
 					s.pendingData.Lock()
 					defer s.pendingData.Unlock()
-					return len(s.pendingData.unread) > 0
+					return len(s.pendingData.unread) > 0 || s.recvBuf.Len() >= n // (a read of the header may already have moved it in)
 				}
 				if !waitUntil(10*time.Second, func() bool { _, ok := ps.flushed2.Load(id); return ok && arrived() }) {
 					failWhy = "second message of a two-flush reply did not arrive"
